@@ -448,3 +448,7 @@ mod tests {
         assert!(output.is_err());
     }
 }
+
+#[cfg(feature = "pendulum_project_ntpd_rs_verif")]
+#[path = "/verif/hooks/ntp-proto/keyset.rs"]
+pub mod verif_hooks;
